@@ -170,6 +170,6 @@ CHECK = Check(
         SubCheck("mem", _strategy(("mem",)), run, quick=120, thorough=2500),
         SubCheck("redis", _strategy(("redis",)), run, quick=40, thorough=800),
         SubCheck("amqp", _strategy(("amqp",)), run, quick=40, thorough=800),
-        SubCheck("sync-burst", burst_case, run_burst, quick=2, thorough=40),
+        SubCheck("sync-burst", burst_case, run_burst, quick=2, thorough=40, shards=8),
     ],
 )
